@@ -574,6 +574,9 @@ impl SchedStats {
             }
         }
     }
+    pub fn outcome_add(&mut self, k: &str) {
+        *self.outcomes.entry(k.to_string()).or_insert(0) += 1;
+    }
     fn outcome(&mut self, k: &str) {
         *self.outcomes.entry(k.to_string()).or_insert(0) += 1;
     }
